@@ -473,10 +473,15 @@ def evaluate(ctx: Ctx, scs: List[dict], procs: int = 14) -> None:
         tr = ctx.model([{"cmd": "c14.escape_script", "worker": scs[i]["worker"], "wrap": wk.escape_wrap(scs[i]["escape"]),
                          "script": reqs[i]["script"]} for i in esc])
         for i, r in zip(esc, tr or []):
-            if "ok" not in r:
-                raise wk.HarnessFailure(f"hcdriver rejected the escape of {scs[i]['name']}/{scs[i]['worker']}: {r}")
-            reqs[i]["script"] = r["ok"]["script"]
             ctx.count("escape", json.dumps(scs[i]["escape"]))
+            ctx.disagreements_checked += 1
+            if "ok" not in r:
+                # the except chain the extractor found has a shape the model cannot speak about (an EXTRACT-FAIL says so too): the
+                # script is then run in the model as it is (what the chain should make of it) and the comparison speaks for itself
+                ctx.disagree("c14.escape_script", {"scenario": {k: scs[i][k] for k in ("name", "worker", "lifespan", "escape")}}, r,
+                             "handle_lifespan of this worker, as extracted")
+                continue
+            reqs[i]["script"] = r["ok"]["script"]
     model = ctx.model(reqs)
 
     def judge(f: Any, i: int, sc: dict, o: dict) -> None:
